@@ -216,6 +216,16 @@ func (s *session) call(c *callSpec) (res string) {
 			res = "hang"
 		}
 	}
+	// a peer that answers late does so now that the call is over
+	for _, b := range []behaviour{c.auth.beh, c.user.beh} {
+		if b.kind == "late" && b.after != nil {
+			func() {
+				defer func() { recover() }()
+				close(b.after)
+			}()
+			time.Sleep(3 * time.Millisecond)
+		}
+	}
 	connAfter, _ := s.cl.VerifState()
 	s.p.mu.Lock()
 	for _, f := range s.p.frames[nBefore:] {
@@ -269,6 +279,15 @@ func frameReply(ms []rscp.Message) replySpec {
 	return replySpec{beh: behaviour{kind: "ok", items: encItems(ms)}, model: "F " + msgsString(ms)}
 }
 
+// the same reply written by the peer in pieces that are not whole cipher blocks
+func (g *gen) piecewise(r replySpec) replySpec {
+	if r.beh.kind == "ok" && g.chance(0.3) {
+		a := 1 + g.pick(60)
+		r.beh.cuts = []int{a, a + 1 + g.pick(40)}
+	}
+	return r
+}
+
 func (g *gen) authReply() replySpec {
 	grant := []rscp.Message{{Tag: rscp.RSCP_AUTHENTICATION, DataType: rscp.UChar8, Value: uint8(10)}}
 	switch g.pick(12) {
@@ -288,7 +307,7 @@ func (g *gen) failReply(ms []rscp.Message) replySpec {
 	items := encItems(ms)
 	switch g.pick(9) {
 	case 8:
-		return replySpec{behaviour{kind: "late", items: items, delay2: 260 * time.Millisecond}, "X"}
+		return replySpec{behaviour{kind: "late", items: items, after: make(chan struct{})}, "X"}
 	case 0:
 		return replySpec{behaviour{kind: "silent"}, "X"}
 	case 1:
@@ -333,7 +352,7 @@ func (g *gen) call(i int) *callSpec {
 	if g.chance(0.3) {
 		c.user = g.failReply(rep)
 	} else {
-		c.user = frameReply(rep)
+		c.user = g.piecewise(frameReply(rep))
 	}
 	return c
 }
@@ -352,7 +371,7 @@ func init() {
 			}
 			var ops, res []string
 			prop := "pass"
-			brokenBefore := false // the previous call failed with a transport/protocol error, or was a disconnect
+			brokenBefore := false    // the previous call failed with a transport/protocol error, or was a disconnect
 			idleSession := i%50 == 7 // one session in fifty idles longer than the (smallest possible) heartbeat interval once
 			for k := 0; k < depth; k++ {
 				c := g.call(k)
@@ -373,8 +392,12 @@ func init() {
 				}
 				healthy := c.kind != "D" && c.dialOk && c.writeOk && c.auth.beh.kind == "ok" && strings.HasPrefix(c.auth.model, "F [ M 8388609 3 n u8 10") &&
 					c.user.beh.kind == "ok" && rscp.VerifValidateRequests(c.reqs) == nil
-				if brokenBefore && healthy && !strings.HasPrefix(r, "ok ") && prop == "pass" {
-					prop = "FAIL C08 no recovery: after a failed call / disconnect the next call against a healthy peer gives " + trunc(r, 120)
+				if healthy && !strings.HasPrefix(r, "ok ") && prop == "pass" {
+					if brokenBefore {
+						prop = "FAIL C08 no recovery: after a failed call / disconnect the next call against a healthy peer gives " + trunc(r, 120)
+					} else {
+						prop = "FAIL C08 a valid request against a healthy peer fails: " + trunc(r, 120)
+					}
 				}
 				switch {
 				case c.kind == "D":
